@@ -114,7 +114,7 @@ def run_property(prop, tier="quick", seed=0, repo_root=None, only=None):
         try:
             obs = pm.obligations(ctx)
         except Exception:
-            status["errors"].append("obligation generator crashed: " + traceback.format_exc(limit=6))
+            status["errors"].append("obligation generator crashed: " + traceback.format_exc(limit=-6))
             obs = []
         if only:
             obs = [o for o in obs if re.search(only, o.name)]
@@ -295,8 +295,15 @@ def handle_refuted(ctx, pm, o, known, status, candidate=False):
     detail = None
     try:
         fn = getattr(pm, "replay", None)
-        if fn is not None and r.get("model") is not None:
-            replayed, detail = fn(ctx, o, r["model"])
+        if r.get("model") is not None:
+            if fn is not None:
+                replayed, detail = fn(ctx, o, r["model"])
+            if replayed is None:
+                # the property module has no harness for this function: the shared ones (contracts/replays.py)
+                from contracts.replays import replay as shared
+                r2, d2 = shared(ctx, o, r["model"])
+                if r2 is not None:
+                    replayed, detail = r2, d2
     except Exception:
         detail = "replay crashed: " + traceback.format_exc(limit=4)
         replayed = None
